@@ -45,11 +45,11 @@ const (
 	TCDefault3          // SetDefaultPartitions(3)
 	TCOverA2            // SetPartitions{a:2}; b keeps the default 32
 	TCDef5OverB1        // SetDefaultPartitions(5); SetPartitions{b:1}
-	TCChange            // SetDefaultPartitions(2); before message index n/2: SetPartitions{a:5}; SetDefaultPartitions(3)
+	TCChange            // SetDefaultPartitions(2); SetPartitions{b:4}; before message index n/2: SetPartitions{a:5}; SetDefaultPartitions(3)
 	numTC
 )
 
-var tcName = []string{"default32", "default3", "a=2,b=default32", "default5,b=1", "default2 then (a=5,default3) before msg n/2"}
+var tcName = []string{"default32", "default3", "a=2,b=default32", "default5,b=1", "default2,b=4 then (a=5,default3) before msg n/2"}
 
 type Case struct {
 	Fam string `json:"fam"` // async | sync | conc | ovl | cons
